@@ -15,8 +15,16 @@ import (
 // Sink is an append-only byte ledger. What the writer *actually* emitted is
 // measured here, not believed from the n it returns.
 type Sink struct {
-	Buf   []byte
-	Calls []int // bytes accepted per Write call
+	Buf    []byte
+	NCalls int // Write calls so far
+	// OnWrite, if set, is called at the start of every Write, before the
+	// bytes are consumed: the simulator's yield point of the medium (another
+	// writer may run while this call is "in flight").
+	OnWrite func()
+	// RejectCall > 0: that Write call (1-based) is refused once, with nothing
+	// accepted and a temporary error; the medium works again afterwards.
+	RejectCall int
+	Rejected   bool
 	// FailAt >= 0: the medium fails once this many bytes have been accepted
 	// (disk full, peer gone): the call that crosses the limit is a short
 	// write with an error, every later call accepts nothing. The zero value
@@ -26,7 +34,18 @@ type Sink struct {
 	Failed bool
 }
 
+// ErrTemporary is the error of a refused call.
+var ErrTemporary = errors.New("simio: temporary failure, nothing written")
+
 func (s *Sink) Write(p []byte) (int, error) {
+	s.NCalls++
+	if s.OnWrite != nil {
+		s.OnWrite()
+	}
+	if s.RejectCall > 0 && s.NCalls == s.RejectCall {
+		s.Rejected = true
+		return 0, ErrTemporary
+	}
 	if s.Faulty {
 		room := s.FailAt - len(s.Buf)
 		if room < 0 {
@@ -38,12 +57,10 @@ func (s *Sink) Write(p []byte) (int, error) {
 				room = len(p)
 			}
 			s.Buf = append(s.Buf, p[:room]...)
-			s.Calls = append(s.Calls, room)
 			return room, ErrInjected
 		}
 	}
 	s.Buf = append(s.Buf, p...)
-	s.Calls = append(s.Calls, len(p))
 	return len(p), nil
 }
 
@@ -94,8 +111,9 @@ type Source struct {
 	ended error // sticky terminal condition once delivered
 	zeros int
 
-	Reads      int // Read calls (the logical step count)
-	PollsAfter int // calls after the terminal condition was delivered
+	OnRead     func() // yield point of the medium, called at the start of every Read
+	Reads      int    // Read calls (the logical step count)
+	PollsAfter int    // calls after the terminal condition was delivered
 	Budget     int
 	MaxPolls   int  // high-water mark of PollsAfter within one client call
 	Spun       bool // the budget was exceeded at least once
@@ -160,6 +178,9 @@ func (s *Source) chunk(max int) int {
 
 func (s *Source) Read(p []byte) (int, error) {
 	s.Reads++
+	if s.OnRead != nil {
+		s.OnRead()
+	}
 	if s.ended != nil {
 		s.PollsAfter++
 		if s.PollsAfter > s.MaxPolls {
